@@ -1,7 +1,7 @@
 #!/bin/sh
 # run every thorough check once (scratch use: `vp run --with-repo -- sh tools/thorough_all.sh`)
 [ -n "$VP_RUN_REPO" ] && export BIOSCRAPE_REPO="$VP_RUN_REPO"
-for p in C01 C02 C03 C04 C05 C06 C07 C08 C09 C10 C11 C12 C13 C14 C15 C16 C17 C18 C19 C20; do
+for p in ${THOROUGH_ONLY:-C01 C02 C03 C04 C05 C06 C07 C08 C09 C10 C11 C12 C13 C14 C15 C16 C17 C18 C19 C20}; do
   s=$(date +%s)
   ./check $p thorough > thorough_$p.log 2>&1
   rc=$?
